@@ -7,5 +7,5 @@ CONSTANTS
 INIT Init
 NEXT Next
 VIEW View
-INVARIANTS TypeOK AllOrNothing FailureIsReported NoDocumentAfterFailure AbortedSendsNothing UntouchedWhileRendering PooledBuffersAreEmpty StreamedAsDocumented
+INVARIANTS TypeOK AllOrNothing StreamedOnlyIfConfigured FailureIsReported NoDocumentAfterFailure AbortedSendsNothing UntouchedWhileRendering PooledBuffersAreEmpty StreamedAsDocumented
 CHECK_DEADLOCK FALSE
